@@ -63,16 +63,26 @@ def pipeline(ctx, cid, x, y, strat, n, kw, append, rule, info):
                 info["continued_on_a_duplicate"] = True
             # a factor taken from a NumPy computation / read from an unsigned column
             n_arg = gen.COUNT_TYPES[(len(x) + n) % len(gen.COUNT_TYPES)](n) if (len(x) + n) % 3 == 0 and n < 256 else n
-            if strat == "ExpAdaptiveRFA" and not kw:
-                wv.recreate_from_average(n_arg)                # documented default strategy
+            chained = (len(x) + 3 * n) % 4 == 0
+            if chained:
+                # the README's form: one chained expression, the result read back from the ORIGINAL name
+                twin = __import__("copy").deepcopy(wv)
+                twin.recreate_from_average(n_arg, rfa_class=R.cls(strat), **kw)
+                xs0, ys0 = twin.get()
+                ys0 = np.array(ys0, dtype=float)
+                wv.recreate_from_average(n_arg, rfa_class=R.cls(strat), **kw).integral_match(target_function_integral_method=rule)
+                info["chained"] = True
             else:
-                wv.recreate_from_average(n_arg, rfa_class=R.cls(strat), **kw)
-            xs0, ys0 = wv.get()
-            ys0 = np.array(ys0, dtype=float)
-            if (len(x) + n) % 2:
-                wv.integral_match(target_function_integral_method=rule)
-            else:
-                wv.integral_match(rule)                     # first positional parameter, documented order
+                if strat == "ExpAdaptiveRFA" and not kw:
+                    wv.recreate_from_average(n_arg)                # documented default strategy
+                else:
+                    wv.recreate_from_average(n_arg, rfa_class=R.cls(strat), **kw)
+                xs0, ys0 = wv.get()
+                ys0 = np.array(ys0, dtype=float)
+                if (len(x) + n) % 2:
+                    wv.integral_match(target_function_integral_method=rule)
+                else:
+                    wv.integral_match(rule)                     # first positional parameter, documented order
             xs, res = wv.get()
     except Exception as e:
         ctx.judged()
